@@ -13,7 +13,7 @@ SIZES6 = [0, 8, 24, 64, 65, 129]
 # poisoning policy: every carved slot costs one entry of the harness's poison log, so the 8- and 16-byte classes (51 / 25 slots per slab) are left to
 # policies 1 and 2; the poison clauses are checked on the 32- and 64-byte classes and on large frames
 SIZES_P3 = [24, 32, 33, 64, 65, 129]
-def scen(pol, ops, hs, sel0, sizes, faults=0, timeout=1500, mem=6, optional=False, sel1=None):
+def scen(pol, ops, hs, sel0, sizes, faults=0, timeout=1500, mem=6, optional=False, sel1=None, prefill=0, presize=64):
     K = len(ops)
     name = 'p%d.%s.s%d%s%s' % (pol, '-'.join('%s%s' % (OPN[o], '' if o == 0 else h) for o, h in zip(ops, hs)), sizes[sel0], '' if sel1 is None else '.s%d' % sizes[sel1], '.fault' if faults else '')
     defs = {'K': K, 'POLICY': pol, 'UNIT_H': '"c01_slab_p%d.h"' % pol, 'NREG': 22, 'IR2C_USE_REGIONS': 1, 'IR2C_STACK_BASE': '0x400ULL',
@@ -22,6 +22,8 @@ def scen(pol, ops, hs, sel0, sizes, faults=0, timeout=1500, mem=6, optional=Fals
     if pol == 3: defs['IR2C_ACCESS_HOOK'] = 1
     if faults: defs['FAULTS'] = faults
     if sel1 is not None: defs['SEL1'] = sel1
+    if prefill: defs['PREFILL'] = prefill; defs['PRESIZE'] = presize; name = 'fill%dx%d.' % (prefill, presize) + name
+    K = len(ops)
     nscen = len(sizes) ** (K - 1 - (sel1 is not None)) * ((K + 1) if faults else 1)
     q = Q(name, 'c01_slab_p%d' % pol, 'c01_slab.c', 'harness', defs=defs, unwind=max(70, nscen + 2), inline_witness=True, witness='any', timeout=timeout, mem_gb=mem, optional=optional,
              unwind_fn=[(r'^reset_all$', 70), (r'^harness$', len(sizes) + K + 3), (r'^(check_block|check_content|fill|is_poisoned)$', 300)], solver='minisat2',
@@ -30,10 +32,13 @@ def scen(pol, ops, hs, sel0, sizes, faults=0, timeout=1500, mem=6, optional=Fals
                      'mode': 'concrete symbolic execution of the real code over flat word-granular memory (scenario parameters enumerated, no symbolic inputs)'},
              what='%s: first size %d, every later size from the table%s, policy %s: all clauses of C01-C04 and lock discipline after every operation' % ('/'.join(OPN[o] for o in ops), sizes[sel0], ', map() failing at every call position' if faults else '', POL[pol]))
     if pol == 3: q.replay = 'generated'      # the poison access hook exists only in the flat-memory build
-    q.tag = {'pol': pol, 'ops': list(ops), 'faults': faults, 'K': K, 'size0': sizes[sel0]}
+    q.tag = {'pol': pol, 'ops': list(ops), 'faults': faults, 'K': K, 'size0': sizes[sel0], 'prefill': prefill}
     return q
 SEQ2 = [([0, 0], [0, 0]), ([0, 1], [0, 0]), ([0, 2], [0, 0]), ([0, 3], [0, 0]), ([3, 3], [0, 0]), ([3, 1], [0, 0])]
 SEQ3 = [([0, 0, 0], [0, 0, 0]), ([0, 0, 1], [0, 0, 0]), ([0, 1, 0], [0, 0, 0]), ([0, 3, 0], [0, 0, 0]), ([0, 3, 3], [0, 0, 0]), ([0, 0, 3], [0, 0, 1]), ([0, 1, 3], [0, 0, 0]), ([0, 0, 2], [0, 0, 1])]
+# after filling one slab of the 64-byte class (6 blocks) or the 32-byte class (12 blocks) completely: free one block and allocate again (the freed slot must be reused, no new slab),
+# allocate one more (a second slab is needed), free from the full slab then fill it again
+PRE = [(6, 64, [1, 0], [2, 0], 7), (6, 64, [0, 1], [0, 3], 7), (6, 64, [1, 1], [2, 5], 7), (12, 32, [1, 0], [2, 0], 5), (6, 64, [3, 0], [4, 0], 7), (6, 64, [1, 3], [3, 4], 7)]
 SEQ4 = [([0, 0, 1, 0], [0, 0, 0, 0]), ([0, 1, 0, 1], [0, 0, 0, 2]), ([0, 0, 3, 1], [0, 0, 0, 1]), ([0, 0, 0, 0], [0, 0, 0, 0])]
 def all_queries(tier):
     qs = []
@@ -49,6 +54,9 @@ def all_queries(tier):
         for (ops, hs) in (SEQ3 if not quick else (SEQ3[1:4] if pol == 1 else SEQ3[2:3])):
             for s0 in (range(6) if not quick else (1, 4)):
                 for s1 in (range(6) if not quick else (3, 5)): qs.append(scen(pol, ops, hs, s0, S6, sel1=s1, timeout=1500, mem=6))
+        for (pf, psz, ops, hs, s0) in (PRE if pol != 3 else PRE[:3]):
+            if pol == 3: s0 = 3
+            qs.append(scen(pol, ops, hs, s0, S12, prefill=pf, presize=psz))
         if not quick:
             for (ops, hs) in SEQ3[:5]:
                 for s0 in range(6):
